@@ -5,11 +5,68 @@
 use foca::Identity;
 use std::cell::Cell;
 
-#[derive(Clone, Copy, PartialEq, Eq, Hash, PartialOrd, Ord, Debug, serde::Serialize, serde::Deserialize)]
-#[serde(from = "WireId", into = "WireId")]
+#[derive(Clone, Copy, Debug)]
 pub struct SimId {
     pub addr: u16,
     pub gen: u32,
+    /// Local-only attribute that is NOT part of the identity's equality, order or wire form (like the
+    /// `rejoinable` flag of the identity type in foca's own tests): bit 0 set = this value cannot renew itself.
+    /// Always 0 except in the value handed to a change_identity call that must fail with SameIdentity (C17):
+    /// an instance that keeps the refused value instead of its own behaves differently later on.
+    pub shade: u8,
+}
+
+impl PartialEq for SimId {
+    fn eq(&self, o: &Self) -> bool {
+        self.addr == o.addr && self.gen == o.gen
+    }
+}
+impl Eq for SimId {}
+impl std::hash::Hash for SimId {
+    fn hash<H: std::hash::Hasher>(&self, h: &mut H) {
+        (self.addr, self.gen).hash(h)
+    }
+}
+impl PartialOrd for SimId {
+    fn partial_cmp(&self, o: &Self) -> Option<std::cmp::Ordering> {
+        Some(self.cmp(o))
+    }
+}
+impl Ord for SimId {
+    fn cmp(&self, o: &Self) -> std::cmp::Ordering {
+        (self.addr, self.gen).cmp(&(o.addr, o.gen))
+    }
+}
+
+/// JSON form (replay files): plain fields; binary form (the bundled codecs): `WireId`, which never carries the shade
+#[derive(serde::Serialize, serde::Deserialize)]
+struct PlainId {
+    addr: u16,
+    gen: u32,
+    #[serde(default, skip_serializing_if = "is_zero")]
+    shade: u8,
+}
+fn is_zero(x: &u8) -> bool {
+    *x == 0
+}
+impl serde::Serialize for SimId {
+    fn serialize<S: serde::Serializer>(&self, s: S) -> Result<S::Ok, S::Error> {
+        if s.is_human_readable() {
+            PlainId { addr: self.addr, gen: self.gen, shade: self.shade }.serialize(s)
+        } else {
+            WireId::from(*self).serialize(s)
+        }
+    }
+}
+impl<'de> serde::Deserialize<'de> for SimId {
+    fn deserialize<D: serde::Deserializer<'de>>(d: D) -> Result<Self, D::Error> {
+        if d.is_human_readable() {
+            let p = PlainId::deserialize(d)?;
+            Ok(SimId { addr: p.addr, gen: p.gen, shade: p.shade })
+        } else {
+            Ok(WireId::deserialize(d)?.into())
+        }
+    }
 }
 
 #[derive(Clone, Copy, PartialEq, Eq, Debug, serde::Serialize, serde::Deserialize)]
@@ -70,7 +127,10 @@ pub const TIE_BIT: u32 = 0x8000_0000;
 
 impl SimId {
     pub const fn new(addr: u16, gen: u32) -> Self {
-        SimId { addr, gen }
+        SimId { addr, gen, shade: 0 }
+    }
+    pub const fn with_shade(self, shade: u8) -> Self {
+        SimId { addr: self.addr, gen: self.gen, shade }
     }
     /// Length of the metadata blob carried by this identity when variable encodings are on.
     pub fn meta_len(&self) -> usize {
@@ -86,7 +146,7 @@ impl SimId {
     /// What renew() yields under the current policy
     pub fn renewed(&self) -> Option<SimId> {
         let p = policy();
-        if !p.renewable(self.addr) {
+        if !p.renewable(self.addr) || self.shade & 1 == 1 {
             return None;
         }
         match p.renew {
@@ -145,6 +205,6 @@ impl From<SimId> for WireId {
 }
 impl From<WireId> for SimId {
     fn from(w: WireId) -> Self {
-        SimId { addr: w.addr, gen: w.gen }
+        SimId { addr: w.addr, gen: w.gen, shade: 0 }
     }
 }
